@@ -24,7 +24,7 @@ InitState == JsonDeserialize(IOEnv.INIT_STATE)
 
 Now == st.clock.ts
 \* banks annotated with the prices the risk engine reads for them now (oracle accounts of the projected state)
-\* venue-backed banks (Kamino 6, Solend 11, Drift 9 on Pyth push feeds): the feed's spot / time-weighted price AND both confidence
+\* venue-backed banks (Kamino 6, Solend 11, Drift 9 on Pyth push feeds; the Switchboard variants below): the feed's spot / time-weighted price AND both confidence
 \* values multiplied by the venue's exchange rate - Kamino / Solend: total liquidity over collateral supply, both first divided
 \* by 10^decimals in I80F48, the product floored (adjust_i64 / adjust_u64); Drift: cumulative deposit interest over 10^10 in
 \* integers.  Check order of the adapters: venue account, refreshed in this slot / second, feed owner, feed age.
@@ -37,22 +37,40 @@ PythAdjusted(b, o, load, Adj(_)) ==
 FeedLoad(b, o) ==
   LET maxAge == IF b.cfg.oracle_max_age = 0 THEN IC_MAX_PYTH_ORACLE_AGE ELSE BOfInt(b.cfg.oracle_max_age) IN
   IF ~o.owner_ok THEN "PythPushWrongAccountOwner" ELSE IF BLt(BAdd(o.ts, maxAge), Now) THEN "PythPushStalePrice" ELSE "ok"
+\* the Switchboard variants (7, 12, 10): the feed's 10^18-scaled value and standard deviation multiplied by the same rate
+\* (Kamino / Solend: through I80F48, which holds integers below 2^79 only; Drift: in integers)
+SwbFeedLoad(b, o) ==
+  IF ~o.owner_ok THEN "SwitchboardWrongAccountOwner"
+  ELSE IF BGt(BSub(Now, o.ts), BOfInt(b.cfg.oracle_max_age)) THEN "SwitchboardStalePrice" ELSE "ok"
+SwbAdjusted(b, o, load, Adj(_), viaFixed) ==
+  LET o2 == IF load = "ok" THEN [o EXCEPT !.swb_value = Adj(o.swb_value), !.swb_std = Adj(o.swb_std)] ELSE o
+      lim == IF viaFixed THEN BPow2(79) ELSE BPow2(127)
+      fits == BLt(o.swb_value, lim) /\ BLt(o.swb_std, lim) /\ BLt(o2.swb_value, lim) /\ BLt(o2.swb_std, lim)
+      load2 == IF load = "ok" /\ ~fits THEN "MathError" ELSE load
+      p == FDiv(FOfBig(o2.swb_value), Exp10(18))
+      c == ImplSwbConf(o2, b.cfg.oracle_max_conf)
+  IN [load |-> load2, pTW |-> p, pRT |-> p, cTW |-> c, cRT |-> c]
 ReservePx(b) ==
-  LET o == st.oracles[b.cfg.oracle_keys[1]] r == st.reserves[b.cfg.oracle_keys[2]] sol == b.cfg.oracle_setup = SETUP_SOLEND_PYTH
+  LET o == st.oracles[b.cfg.oracle_keys[1]] r == st.reserves[b.cfg.oracle_keys[2]] sol == b.cfg.oracle_setup \in SolLike
+      swb == b.cfg.oracle_setup \in SwbLike
       load == IF ~r.owner_ok THEN (IF sol THEN "SolendReserveValidationFailed" ELSE "KaminoReserveValidationFailed")
               ELSE IF BLt(r.slot, st.clock.slot) THEN (IF sol THEN "SolendReserveStale" ELSE "ReserveStale")
-              ELSE FeedLoad(b, o)
+              ELSE IF swb THEN SwbFeedLoad(b, o) ELSE FeedLoad(b, o)
       ratio == ReserveRatioBits(r)
-  IN PythAdjusted(b, o, load, LAMBDA x : KaminoAdj(x, ratio))
+  IN IF swb THEN SwbAdjusted(b, o, load, LAMBDA x : KaminoAdj(x, ratio), TRUE)
+     ELSE PythAdjusted(b, o, load, LAMBDA x : KaminoAdj(x, ratio))
 MarketPx(b) ==
   LET o == st.oracles[b.cfg.oracle_keys[1]] m == st.markets[b.cfg.oracle_keys[2]]
-      load == IF ~m.owner_ok THEN "DriftSpotMarketValidationFailed" ELSE IF BLt(m.ts, Now) THEN "DriftSpotMarketStale" ELSE FeedLoad(b, o)
-  IN PythAdjusted(b, o, load, LAMBDA x : DriftAdj(x, m.cum))
+      swb == b.cfg.oracle_setup \in SwbLike
+      load == IF ~m.owner_ok THEN "DriftSpotMarketValidationFailed" ELSE IF BLt(m.ts, Now) THEN "DriftSpotMarketStale"
+              ELSE IF swb THEN SwbFeedLoad(b, o) ELSE FeedLoad(b, o)
+  IN IF swb THEN SwbAdjusted(b, o, load, LAMBDA x : DriftAdj(x, m.cum), FALSE)
+     ELSE PythAdjusted(b, o, load, LAMBDA x : DriftAdj(x, m.cum))
 PxFor(b) ==
   LET oracles == IF Has(st, "oracles") THEN st.oracles ELSE <<>> IN
-  IF b.cfg.oracle_setup \in {SETUP_KAMINO_PYTH, SETUP_SOLEND_PYTH} /\ Has(oracles, b.cfg.oracle_keys[1]) /\ Has(ReservesOf(st), b.cfg.oracle_keys[2])
+  IF b.cfg.oracle_setup \in KamLike /\ Has(oracles, b.cfg.oracle_keys[1]) /\ Has(ReservesOf(st), b.cfg.oracle_keys[2])
   THEN ReservePx(b)
-  ELSE IF b.cfg.oracle_setup = SETUP_DRIFT_PYTH /\ Has(oracles, b.cfg.oracle_keys[1]) /\ Has(MarketsOf(st), b.cfg.oracle_keys[2])
+  ELSE IF b.cfg.oracle_setup \in DriLike /\ Has(oracles, b.cfg.oracle_keys[1]) /\ Has(MarketsOf(st), b.cfg.oracle_keys[2])
   THEN MarketPx(b)
   ELSE ImplPxP(b, oracles, IF Has(st, "pools") THEN st.pools ELSE <<>>, Now)
 Px(banks) == [bn \in DOMAIN banks |-> banks[bn] @@ [px |-> PxFor(banks[bn])]]
